@@ -102,6 +102,14 @@ def exc_name(e):
     return e.cls.name
 
 
+def _store_bin(store):
+    """the logical content of a real BitStore read through bitarray only (no method of the code under test): the first
+    modified_length bits of the raw buffer, or all of it"""
+    raw = store._bitarray
+    ml = store.modified_length
+    return (raw[:ml] if ml is not None else raw).to01()
+
+
 def canon_real(v):
     import bitstring
     import bitarray
@@ -115,12 +123,12 @@ def canon_real(v):
         n = type(v).__name__
         if not hasattr(v, '_bitstore'):
             return (n, None)             # an object under construction whose initialiser raised (as in canon_model)
-        s = v._bitstore.slice_to_bin() if len(v) else ''
+        s = _store_bin(v._bitstore)
         if hasattr(v, '_pos'):
             return (n, s, v._pos)
         return (n, s)
     if isinstance(v, bitstring.bitstore.BitStore):
-        return ('BitStore', v.slice_to_bin() if len(v) else '')
+        return ('BitStore', _store_bin(v))
     if isinstance(v, BaseException):
         return ('exc', type(v).__name__)
     if isinstance(v, bitstring.Dtype):
